@@ -8,6 +8,7 @@ import re
 from fractions import Fraction
 from .core import RuleResult
 from .facts import fn_key, fn_loc, fn_file, walk, strip, peel_refs, pat_bindings, Render
+from .facts import lit_float, lit_number
 from .c17 import for_loops, tuple_positions
 
 LEVEL = ("Static analysis of linfa's metrics. Decided: (delegate) every multi-target regression metric applies, column by "
@@ -85,9 +86,8 @@ class Deg:
                 self.env[b["local"]] = Fraction(1)
 
     def lit(self, n):
-        try:
-            v = float(str(n.get("v")).replace("_", "").rstrip("f3264").rstrip("_") or "0")
-        except ValueError:
+        v = lit_float(n.get("v"))
+        if v is None:
             return None
         if v == 0.0 or abs(v) <= TINY:
             return "any"
@@ -177,7 +177,7 @@ class Deg:
             if nm in ("powi", "powf") and n["args"]:
                 a0 = peel_refs(n["args"][0])
                 try:
-                    e = Fraction(str(a0.get("v")).rstrip("f3264_").rstrip("."))
+                    e = Fraction(lit_number(a0.get("v")))
                 except (ValueError, TypeError, ZeroDivisionError):
                     return None
                 return None if r in (None, "any") else r * e
@@ -421,7 +421,7 @@ def rule_count(ctx):
         res.instance("%s : one count per pair" % key)
         inc = [y for y in walk(fn["body"]) if y.get("k") == "AssignOp" and peel_refs(y["l"]).get("k") == "Index"]
         amt = peel_refs(inc[0]["r"]) if inc else {}
-        one = amt.get("k") == "Lit" and str(amt.get("v")).rstrip("0").rstrip(".").rstrip("f3264_") in ("1", "1.")
+        one = amt.get("k") == "Lit" and lit_float(amt.get("v")) == 1.0
         if not inc:
             res.undecided("%s : increment" % key, "no increment of a matrix cell (fail closed)", fn_loc(fn))
         elif inc[0]["op"] != "+" or not one:
@@ -865,6 +865,124 @@ def rule_sorted(ctx):
     return res.finish(1)
 
 
+def _eval_int(c, e, env):
+    """value of an integer expression over literals and the locals in env, else None"""
+    e = peel_refs(e)
+    while e.get("k") in ("Paren", "DropTemps"):
+        e = peel_refs(e["e"])
+    if e.get("k") == "Lit":
+        m_ = re.match(r"^(\d+)(?:[ui](?:size|8|16|32|64|128))?$", str(e.get("v")).replace("_", ""))
+        return int(m_.group(1)) if m_ else None
+    if e.get("k") == "Path" and "local" in e:
+        return env.get(e["local"])
+    if e.get("k") == "Cast":
+        return _eval_int(c, e["e"], env)
+    if e.get("k") == "Binary" and e["op"] in ("+", "-", "*", "/"):
+        a, b = _eval_int(c, e["l"], env), _eval_int(c, e["r"], env)
+        if a is None or b is None:
+            return None
+        if e["op"] == "/":
+            return a // b if b else None
+        return a + b if e["op"] == "+" else a - b if e["op"] == "-" else a * b
+    return None
+
+
+def rule_packed(ctx):
+    """`get_coeffs()` documents the packed upper triangle row by row: (0,1), (0,2), .., (1,2), ..  The k-th pair visited by
+    the double loop is stored at k.  A closed-form position is evaluated here for 4 and 5 features over the loop nest as
+    written: it must count 0, 1, 2, .. in visiting order (the column-by-column formula j(j-1)/2 + i agrees up to 3 features)."""
+    from .c17 import for_loops
+    res = RuleResult("R-C05-packed", "pearson_correlation stores the k-th visited feature pair at position k of the packed triangle")
+    F = ctx.facts()
+    fns = [f for f in F.all_fns() if f["d"]["krate"] == "linfa" and f["d"]["name"] == "pearson_correlation" and "tests" not in f["d"]["path"] and not f["d"].get("self_adt")]
+    if not fns:
+        res.missing_anchor("the free function pearson_correlation")
+    for fn in fns:
+        c = fn["crate"]
+        r = Render(c)
+        key = fn_key(fn)
+        res.instance(key)
+        nest = None
+        for it, pat, body, node in for_loops(fn["body"]):
+            for it2, pat2, body2, node2 in for_loops(body):
+                w = next((y for y in walk(body2) if y.get("k") == "Assign" and peel_refs(y["l"]).get("k") == "Index"), None)
+                if w is not None:
+                    nest = (it, pat, it2, pat2, body2, w)
+        if nest is None:
+            res.undecided("%s : loop-nest" % key, "no double loop writing an indexed element (fail closed)", fn_loc(fn))
+            continue
+        it, pat, it2, pat2, body2, w = nest
+        kexpr = peel_refs(w["l"])["i"]
+        k0 = peel_refs(kexpr)
+        # a running counter: a local declared outside the nest and incremented by one in the inner body
+        if k0.get("k") == "Path" and any(y.get("k") == "AssignOp" and y["op"] == "+" and peel_refs(y["l"]).get("local") == k0.get("local") for y in walk(body2)) and not any(y.get("k") == "LetStmt" and any(b["local"] == k0.get("local") for b in pat_bindings(y["pat"])) for y in walk(body2)):
+            res.ok()
+            continue
+        inner_lets = {}
+        for y in walk(body2):
+            if y.get("k") == "LetStmt" and y.get("init") is not None and y["pat"].get("k") == "Bind":
+                inner_lets[y["pat"]["local"]] = y["init"]
+        if k0.get("k") == "Path" and k0.get("local") in inner_lets:
+            kexpr = inner_lets[k0["local"]]
+
+        def bounds(itx):
+            itx = peel_refs(itx)
+            while itx.get("k") in ("Paren", "DropTemps") or (itx.get("k") == "Call" and len(itx["args"]) == 1):
+                itx = peel_refs(itx["e"] if itx.get("k") != "Call" else itx["args"][0])
+            if itx.get("k") == "Struct":
+                fs = {f_["name"]: f_["e"] for f_ in itx.get("fields") or []}
+                if "start" in fs and "end" in fs:
+                    return fs["start"], fs["end"]
+            return None
+        b1, b2 = bounds(it), bounds(it2)
+        iv = next((b["local"] for b in pat_bindings(pat)), None)
+        jv = next((b["local"] for b in pat_bindings(pat2)), None)
+        nloc = None
+        for y in walk(fn["body"]):
+            if y.get("k") == "LetStmt" and y.get("init") is not None and y["pat"].get("k") == "Bind" and peel_refs(y["init"]).get("k") == "MethodCall" and peel_refs(y["init"])["name"] in ("ncols", "nfeatures"):
+                nloc = y["pat"]["local"]
+        if b1 is None or b2 is None or iv is None or jv is None or nloc is None:
+            res.undecided("%s : loop-bounds" % key, "loop bounds / feature count not readable (fail closed)", fn_loc(fn))
+            continue
+        verdict = None
+        for n in (4, 5):
+            env = {nloc: n}
+            lo1, hi1 = _eval_int(c, b1[0], env), _eval_int(c, b1[1], env)
+            if lo1 is None or hi1 is None:
+                verdict = "unknown"
+                kexpr = b1[1] if hi1 is None else b1[0]
+                break
+            pos = 0
+            for i in range(lo1, hi1):
+                env[iv] = i
+                lo2, hi2 = _eval_int(c, b2[0], env), _eval_int(c, b2[1], env)
+                if lo2 is None or hi2 is None:
+                    verdict = "unknown"
+                    kexpr = b2[1] if hi2 is None else b2[0]
+                    break
+                for j in range(lo2, hi2):
+                    env[jv] = j
+                    kv = _eval_int(c, kexpr, env)
+                    if kv is None:
+                        verdict = "unknown"
+                        break
+                    if kv != pos:
+                        verdict = "pair (%d, %d) of %d features is the %s visited but is stored at %d" % (i, j, n, ["first", "second", "third", "fourth", "fifth", "sixth", "seventh", "eighth", "ninth", "tenth"][pos] if pos < 10 else "%d-th" % (pos + 1), kv)
+                        break
+                    pos += 1
+                if verdict:
+                    break
+            if verdict:
+                break
+        if verdict is None:
+            res.ok()
+        elif verdict == "unknown":
+            res.undecided("%s : packed-index" % key, "`%s` could not be evaluated (fail closed)" % r.e(kexpr)[:40], fn_loc(fn, w.get("ln")))
+        else:
+            res.violate("%s : packed-index-order" % key, "`%s`: %s - the coefficients are those of other feature pairs than the row-by-row order of get_coeffs() and Display says (identical up to 3 features)" % (r.e(kexpr)[:40], verdict), fn_loc(fn, w.get("ln")))
+    return res.finish(1)
+
+
 def rule_f1(ctx):
     """`f1_score` is documented as the F-beta score for beta = 1: whatever kind of matrix it is called on, it is `f_score(1)`.
     A path that computes something else (a macro average over one-vs-all splits for more than two classes, say) makes the two
@@ -977,4 +1095,6 @@ def rules(tier):
     from . import c02
     # the class list of a confusion matrix over a dataset is the key set of its label-count cache: shared with C02
     from . import bitorder
-    return [rule_f1, rule_union, rule_centred, rule_clip, rule_sorted, bitorder.make_rule("R-C05-bitorder", {"linfa"}, 1, "the linfa crate (probabilities `Pr`, scores of the metrics)"), rule_delegate, rule_degree, rule_orient, rule_roles, rule_count, rule_median, rule_twice, rule_symmetric, rule_reset, c02.rule_counted]
+    from . import intnarrow
+    return [intnarrow.make_rule("R-C05-narrow", lambda f: f["d"]["krate"] == "linfa" and any(x in fn_file(f) for x in ("metrics_", "correlation")), "the metrics of the linfa crate"),
+            rule_packed, rule_f1, rule_union, rule_centred, rule_clip, rule_sorted, bitorder.make_rule("R-C05-bitorder", {"linfa"}, 1, "the linfa crate (probabilities `Pr`, scores of the metrics)"), rule_delegate, rule_degree, rule_orient, rule_roles, rule_count, rule_median, rule_twice, rule_symmetric, rule_reset, c02.rule_counted]
